@@ -2,7 +2,7 @@
    Model: coq/orm/Cascade.v (objects = nat, relationships = one-to-many + optional many-to-one backref). *)
 From Coq Require Import List Bool Arith.
 From SAV.orm Require Import Cascade CascadeOpts CascadeOptsProofs CascadeIterProofs CascadeOpsProofs
-  CascadeFlushProofs CascadeFlushMain CascadeAppendProofs CascadeHistory.
+  CascadeFlushProofs CascadeFlushMain CascadeAppendProofs CascadeHistory CascadeFuel.
 Import ListNotations.
 
 (* ================= CascadeOptions: option names -> flags ================= *)
@@ -127,6 +127,13 @@ Theorem c39_flush_outcome : forall cfg procs s u,
   (forall x, rowp s' x = match reg u x with Some b => negb b | None => rowp s x end).
 Proof. exact flush_outcome. Qed.
 Print Assumptions c39_flush_outcome.
+
+(* the presort loop never runs out of fuel (the distinguished "unmodelled" result is unreachable through it) *)
+Theorem c39_flush_fuel_suffices : forall cfg procs s,
+  incl procs (all_procs cfg) -> (forall x, in_session s x = true -> x < nobj cfg) ->
+  presort cfg (fst (flush_top cfg s)) procs (presort_fuel cfg) (snd (flush_top cfg s)) <> None.
+Proof. exact flush_fuel_suffices. Qed.
+Print Assumptions c39_flush_fuel_suffices.
 
 (* orphan_rule: removed from a delete-orphan collection (flag cleared: _is_orphan) and not re-associated => deleted *)
 Theorem c39_orphan_rule : forall cfg procs s u c,
